@@ -1,5 +1,265 @@
-"""stub"""
+"""C08 — copies are independent; queries never change the parser (DESIGN.md §4 C08)."""
+from __future__ import annotations
+
+import ast
+
+from ..core import pyfacts as pf
+from ..core.callgraph import callgraph
+from ..core.effects import effects
+from ..core.match import txt
 from ..core.source import AnchorMissing
-PROP="C08"
+from .common import DEC, DECAY, builder_sites, ckey, fn, returns, stmt_of, where
+
+PROP = "C08"
+FILES = [DEC, DECAY, "utils/utilities.py", "utils/particleutils.py"]
+EXPLANATION = (
+    "C08.1 effect analysis: for every query method of DecFileParser (26+) the transitive write set on parser state "
+    "(self.*, class and module state, objects reachable from them, also through helper functions and Lark visitor "
+    "dispatch) is empty, except the two lazy grammar slots; C08.2 what each public query returns is fresh or immutable to "
+    "the depth a caller can mutate; C08.3 CopyDecay appends a deepcopy of the source and renames only the copy; C08.4 "
+    "conjugation and alias expansion work on copies (C03.2, C05.2); C08.5 parse() re-assigns all parsed state on every "
+    "normal path before use; C08.6 the in-place expansion helper only ever receives a freshly built chain dictionary; "
+    "C08.7 cached functions return immutable values.")
+NOT_DECIDED = ["equality of answers with a freshly parsed instance (needs execution)"]
+LAZY = {"self._grammar", "self._grammar_info"}
+NON_QUERIES = {"__init__", "from_string", "parse", "load_additional_decay_models", "_load_grammar"}
+EXTRA_QUERIES = {"_find_decay_modes", "_decay_mode_details", "_align_items"}
+RETURNS_LIVE_OK = {"grammar_info": "documented configuration handle (O2)", "grammar": "returns the grammar text (str)"}
+
+
 def run(ctx, ss):
-    raise AnchorMissing("rules not built yet")
+    from .c03 import c03_2
+    from .c05 import c05_2
+    for r, f in (("C08.1", c08_1), ("C08.2", c08_2), ("C08.3", c08_3), ("C08.5", c08_5), ("C08.6", c08_6), ("C08.7", c08_7)):
+        ctx.guard(r, f, ss)
+    ctx.guard("C08.4", lambda c, s: c03_2(c, s, rule="C08.4"), ss)
+    ctx.guard("C08.4", lambda c, s: c05_2(c, s, rule="C08.4"), ss)
+
+
+def _queries(ss):
+    mf = pf.module_facts(ss, DEC)
+    cf = mf.classes.get("DecFileParser")
+    if cf is None:
+        raise AnchorMissing("class DecFileParser not found")
+    qs = [m for n, m in cf.methods.items() if (not n.startswith("_") or n in EXTRA_QUERIES or n in ("__repr__", "__str__")) and n not in NON_QUERIES]
+    return cf, qs
+
+
+def c08_1(ctx, ss):
+    ef = effects(ss)
+    cf, qs = _queries(ss)
+    ctx.count("query_methods", len(qs))
+    ctx.count("write_sites", sum(len(v) for v in ef.local.values()))
+    ctx.count("functions", len(ef.cg.funcs))
+    ctx.count("unresolved_calls", ef.cg.unresolved)
+    for m in qs:
+        ws = ef.transitive_state_writes(m.key)
+        bad = [w for w in ws if not (w.root[0] == "state" and w.root[1] in LAZY)]
+        k = ckey(m, None, "no-state-write")
+        mp = sorted(p for p in ef.sum[m.key].mutated_params if p not in ("self", "cls"))
+        if mp:
+            ctx.violation("C08.1", ckey(m, None, f"mutates-param {mp[0]}"), where(m, m.node),
+                          f"query {m.qualname} modifies the object passed as `{mp[0]}` (for the tree accessors this is a tree of the parser)")
+        if not bad:
+            ctx.holds("C08.1", k, where(m, m.node), f"{m.qualname}: no write to parser / class / module state ({len(ws)} lazy-grammar writes exempt)", len(ws) + 1)
+            continue
+        for w in bad:
+            wf = ef.cg.funcs[w.func]
+            if w.root[0] == "state":
+                ctx.violation("C08.1", ckey(m, None, f"writes {w.root[1]}"), where(wf, w.node),
+                              f"query {m.qualname} changes parser state: {w.how} on {w.root[1]} (in {wf.qualname}); later answers depend on this call")
+            else:
+                ctx.undecided("C08.1", ckey(m, None, f"unknown-root {w.how}"), where(wf, w.node),
+                              f"query {m.qualname}: write `{w.how}` on an object of unknown origin ({w.root[1]})")
+    ctx.floor("C08.1", "query methods", len(qs), 26)
+
+
+def c08_2(ctx, ss):
+    ef = effects(ss)
+    cf, qs = _queries(ss)
+    n = 0
+    for m in qs:
+        if m.node.name.startswith("_") and m.node.name not in ("__repr__", "__str__"):
+            continue
+        n += 1
+        k = ckey(m, None, "returns-fresh")
+        if m.node.name in RETURNS_LIVE_OK:
+            ctx.holds("C08.2", k, where(m, m.node), f"{m.qualname}: exempt — {RETURNS_LIVE_OK[m.node.name]}", 1)
+            continue
+        if ef.returns_deep_fresh(m.key):
+            ctx.holds("C08.2", k, where(m, m.node), f"{m.qualname}: the returned value is rebuilt on every call (fresh or immutable at every depth)", len(returns(m)) + 1)
+        else:
+            bad = [r for r in returns(m) if r.value is not None and not ef.deep_fresh(__import__("sa.core.defuse", fromlist=["flow_of"]).flow_of(ss, m), r.value)]
+            r0 = bad[0] if bad else m.node
+            ctx.violation("C08.2", k, where(m, r0),
+                          f"{m.qualname} hands out `{txt(r0.value)[:80] if bad else '?'}`, which is (or contains) an object reachable from parser state: "
+                          "mutating the returned value changes later answers")
+    ctx.floor("C08.2", "public queries", n, 23)
+
+
+def c08_3(ctx, ss):
+    ef = effects(ss)
+    ff, flow = fn(ss, DEC, "DecFileParser._add_decays_to_be_copied")
+    ext = [c for c in pf.calls_in(ff.node) if isinstance(c.func, ast.Attribute) and c.func.attr in ("extend", "append")
+           and txt(c.func.value) == "self._parsed_decays"]
+    if not ext:
+        ctx.violation("C08.3", ckey(ff, None, "added"), where(ff, ff.node), "copied decays are never added to the list of tables")
+        return
+    for c in ext:
+        a = c.args[0]
+        # elements of the extended list
+        srcs = []
+        if isinstance(a, ast.Name):
+            sites = builder_sites(ff, flow, a.id)
+            srcs = [args[0] for st, m, args in sites if m == "append"]
+            if not srcs:
+                raise AnchorMissing("_add_decays_to_be_copied: builder of the copied list not understood")
+        else:
+            srcs = [a]
+        for s in srcs:
+            r = ef.root(flow, s)
+            k = ckey(ff, None, "copy-is-deep")
+            if r == ("fresh", "deepcopy"):
+                ctx.holds("C08.3", k, where(ff, s), "the tree added for CopyDecay is copy.deepcopy(source)", 2)
+            else:
+                ctx.violation("C08.3", k, where(ff, s),
+                              f"the tree added for CopyDecay is not a deep copy of its source (origin: {r[0]} {r[1]}): copy and source share decay lines")
+    # the rename writes into the copy only
+    stores = [w for w in ef.local[ff.key] if w.how.startswith("store ") and ".value" in w.how]
+    if not stores:
+        ctx.violation("C08.3", ckey(ff, None, "rename"), where(ff, ff.node), "the copy is never renamed to the new mother")
+    for w in stores:
+        r = ef.root(flow, w.receiver)
+        k = ckey(ff, None, "rename")
+        if r == ("fresh", "deepcopy"):
+            ctx.holds("C08.3", k, where(ff, w.node), "the mother name is rewritten on the deep copy", 1)
+        else:
+            ctx.violation("C08.3", k, where(ff, w.node), f"the mother rename writes into an object that is not the deep copy ({r[0]} {r[1]}): the SOURCE table is renamed")
+    # source lookup by name -> position of the same list
+    ok = False
+    for c in pf.calls_in(ff.node):
+        if txt(c.func) in ("copy.deepcopy", "deepcopy") and c.args:
+            t = flow.text(c.args[0])
+            if t.startswith("self._parsed_decays[") and "__elem__(self.dict_decays2copy().items())[1]" in t:
+                ok = True
+    (ctx.holds if ok else ctx.violation)("C08.3", ckey(ff, None, "source"), where(ff, ff.node),
+                                          "the source of a copy is the table named by the statement's second label" if ok
+                                          else "the source tree of a CopyDecay is not looked up by the statement's second label")
+
+
+def _self_store_nodes(ff, attr):
+    out = []
+    for st in pf.iter_stmts(ff.node.body):
+        if isinstance(st, (ast.Assign, ast.AnnAssign)):
+            ts = st.targets if isinstance(st, ast.Assign) else [st.target]
+            if any(isinstance(t, ast.Attribute) and t.attr == attr and isinstance(t.value, ast.Name) and t.value.id == "self" for t in ts):
+                out.append(st)
+    return out
+
+
+def c08_5(ctx, ss):
+    ff, flow = fn(ss, DEC, "DecFileParser.parse")
+    cfg = flow.cfg
+    for attr in ("_include_ccdecays", "_parsed_dec_file", "_parsed_decays"):
+        sts = _self_store_nodes(ff, attr)
+        k = ckey(ff, None, f"reassign:{attr}")
+        if sts and cfg.must_pass({cfg.node_of(s) for s in sts}):
+            ctx.holds("C08.5", k, where(ff, sts[0]), f"parse() assigns self.{attr} on every normal path", len(sts))
+        else:
+            ctx.violation("C08.5", k, where(ff, ff.node), f"parse() can complete without re-assigning self.{attr}: a second parse() keeps state of the first")
+    # the switch is assigned from the argument before it is read
+    sts = _self_store_nodes(ff, "_include_ccdecays")
+    reads = [a for a in pf.walk_no_nested(ff.node) if isinstance(a, ast.Attribute) and a.attr == "_include_ccdecays" and isinstance(a.ctx, ast.Load)]
+    ok = bool(sts) and all(cfg.dominates(cfg.node_of(sts[0]), flow.node_of_expr(r)) for r in reads)
+    v = flow.expand(sts[0].value) if sts else None
+    ok_v = v is not None and txt(v) in ("include_ccdecays or False", "include_ccdecays", "bool(include_ccdecays)")
+    (ctx.holds if ok and ok_v else ctx.violation)("C08.5", ckey(ff, None, "switch"), where(ff, sts[0] if sts else ff.node),
+                                                  "self._include_ccdecays := include_ccdecays before any read" if ok and ok_v
+                                                  else f"the conjugate switch is not (only) the argument of this parse() call: `{txt(v) if v is not None else None}`")
+    # the list of tables is rebuilt from the new tree
+    g, gflow = fn(ss, DEC, "DecFileParser._find_parsed_decays")
+    sts = _self_store_nodes(g, "_parsed_decays")
+    ok = len(sts) == 1 and txt(sts[0].value) == "get_decays(self._parsed_dec_file)"
+    (ctx.holds if ok else ctx.violation)("C08.5", ckey(g, None, "rebuilt"), where(g, g.node),
+                                          "the table list is rebuilt from the newly parsed tree" if ok else "the table list is not rebuilt from the newly parsed tree (e.g. appended to the old one)")
+
+
+def c08_6(ctx, ss):
+    ef = effects(ss)
+    cg = callgraph(ss)
+    key = f"{DECAY}:_expand_decay_modes"
+    if key not in cg.funcs:
+        raise AnchorMissing("_expand_decay_modes not found")
+    mut = ef.sum[key].mutated_params
+    callers = [s for s in cg.callers_of(key) if s.caller != key]
+    ctx.count("call_sites", len(callers))
+    if "decay_chain" not in mut:
+        ctx.holds("C08.6", ckey(cg.funcs[key], None, "pure"), where(cg.funcs[key], cg.funcs[key].node), "_expand_decay_modes does not mutate its argument", 1)
+        return
+    allowed = {f"{DEC}:DecFileParser.expand_decay_modes": "self.build_decay_chains", f"{DECAY}:DecayChain.to_string": "self.to_dict"}
+    for s in callers:
+        cf_ = cg.funcs[s.caller]
+        from ..core.defuse import flow_of
+        fl = flow_of(ss, cf_)
+        a = s.node.args[0] if s.node.args else None
+        k = ckey(cf_, None, "expand-arg")
+        if a is None:
+            raise AnchorMissing("call of _expand_decay_modes without positional chain")
+        ex = fl.expand(a)
+        builder = allowed.get(s.caller)
+        if builder and isinstance(ex, ast.Call) and txt(ex.func) == builder:
+            ctx.holds("C08.6", k, where(cf_, s.node), f"{cf_.qualname}: the chain handed to the in-place expansion is the direct result of {builder}()", 2)
+        else:
+            r = ef.root(fl, a)
+            if r[0] == "fresh":
+                ctx.holds("C08.6", k, where(cf_, s.node), f"{cf_.qualname}: argument is fresh ({r[1]})", 2)
+            else:
+                ctx.violation("C08.6", k, where(cf_, s.node),
+                              f"{cf_.qualname} passes `{txt(ex)[:80]}` ({r[0]} {r[1]}) to _expand_decay_modes, which rewrites its argument in place")
+    ctx.floor("C08.6", "call sites of _expand_decay_modes", len(callers), 2)
+    # the two builders create new containers on every call
+    for short, q in ((DECAY, "DecayMode.to_dict"), (DECAY, "DecayChain.to_dict.recursively_replace")):
+        ff, flow = fn(ss, short, q)
+        ok = True
+        for r in returns(ff):
+            v = r.value
+            if isinstance(v, ast.Name):
+                ds = flow.defs_of(v)
+                v = ds[0].value if len(ds) == 1 and ds[0].kind == "assign" else None
+            if not isinstance(v, ast.Dict):
+                ok = False
+        (ctx.holds if ok else ctx.violation)("C08.6", ckey(ff, None, "new-dict"), where(ff, ff.node),
+                                              f"{q} returns a dict display created by this call" if ok else f"{q} does not return a newly created dict")
+
+
+CACHE_DECOS = {"lru_cache", "cache", "cacher", "cached_property", "functools.lru_cache", "functools.cache"}
+
+
+def c08_7(ctx, ss):
+    ef = effects(ss)
+    n = 0
+    for k, ff in ef.cg.funcs.items():
+        decos = set(ff.decorators)
+        if decos & CACHE_DECOS:
+            n += 1
+            from ..core.defuse import flow_of
+            fl = flow_of(ss, ff)
+            bad = [r for r in returns(ff) if r.value is not None and not _immutable(r.value)]
+            kk = ckey(ff, None, "cached-immutable")
+            if bad:
+                ctx.violation("C08.7", kk, where(ff, bad[0]), f"cached function {ff.qualname} returns `{txt(bad[0].value)[:60]}`, a possibly mutable object shared between calls")
+            else:
+                ctx.holds("C08.7", kk, where(ff, ff.node), f"cached function {ff.qualname} returns strings only", len(returns(ff)))
+    ctx.count("cached_functions", n)
+
+
+def _immutable(e: ast.AST) -> bool:
+    if isinstance(e, (ast.Constant, ast.JoinedStr)):
+        return True
+    if isinstance(e, ast.Attribute) and e.attr in ("evtgen_name", "name", "pdg_name"):
+        return True
+    if isinstance(e, ast.Subscript):
+        return "NameMap" in txt(e.value) or "BiMap" in txt(e.value)
+    if isinstance(e, ast.Call) and isinstance(e.func, ast.Name) and e.func.id in ("str", "float", "int", "bool", "tuple", "frozenset"):
+        return True
+    return False
